@@ -350,31 +350,31 @@ Section Model.
   (** *** validator.CoerceVariableValues.  Default values are constant literals (the parser calls
       parseValue(constant=true) for them), so the raw variable map Go passes to CoerceLiteral is
       never consulted: the model passes the empty map. *)
+  Definition var_step (raw : list (name * jval)) (acc : res cvars) (def : vardef) : res cvars :=
+    match acc with
+    | Ok coerced =>
+        if negb (type_known (vd_type def)) then Err            (* Invalid variable type. *)
+        else
+          match aget (vd_name def) raw, vd_default def with
+          | None, Some dflt =>
+              match coerce_literal [] dflt (vd_type def) true with
+              | Ok c => Ok (mset (vd_name def) c coerced)
+              | Err => Err
+              | Panic => Panic
+              end
+          | None, None => if is_nonnull (vd_type def) then Err else Ok coerced
+          | Some value, _ =>
+              match coerce_var_value value (vd_type def) true with
+              | Ok c => Ok (mset (vd_name def) c coerced)
+              | Err => Err
+              | Panic => Panic
+              end
+          end
+    | _ => acc
+    end.
+
   Definition coerce_variable_values (defs : list vardef) (raw : list (name * jval)) : res cvars :=
-    fold_left
-      (fun (acc : res cvars) (def : vardef) =>
-         match acc with
-         | Ok coerced =>
-             if negb (type_known (vd_type def)) then Err            (* Invalid variable type. *)
-             else
-               match aget (vd_name def) raw, vd_default def with
-               | None, Some dflt =>
-                   match coerce_literal [] dflt (vd_type def) true with
-                   | Ok c => Ok (mset (vd_name def) c coerced)
-                   | Err => Err
-                   | Panic => Panic
-                   end
-               | None, None => if is_nonnull (vd_type def) then Err else Ok coerced
-               | Some value, _ =>
-                   match coerce_var_value value (vd_type def) true with
-                   | Ok c => Ok (mset (vd_name def) c coerced)
-                   | Err => Err
-                   | Panic => Panic
-                   end
-               end
-         | _ => acc
-         end)
-      defs (Ok []).
+    fold_left (var_step raw) defs (Ok []).
 
   (** *** validator.CoerceArgumentValues: the body of the loop over the argument definitions
       ([argument_values]: the map from argument name to the literal the document gives it) *)
